@@ -1,8 +1,13 @@
 #!/bin/bash
-# Guard OFF: build /repo as the baseline does (no -DPHOTON_VERIF) and run its test suite.
+# Guard OFF: build a tree as the baseline does (no -DPHOTON_VERIF), run its test suite and compare the gtest cases that
+# passed with /root/.vp/BASELINE.json stable_pass.   usage: baseline_off.sh [src_dir [build_dir]]   (default /repo /repo/_build)
+SRC=${1:-/repo}; BD=${2:-$SRC/_build}
 set -e
-if [ ! -f /repo/_build/build.ninja ]; then
-  cmake -G Ninja -S /repo -B /repo/_build -DCMAKE_BUILD_TYPE=RelWithDebInfo -DPHOTON_BUILD_TESTING=ON -DCMAKE_CXX_FLAGS=-Wno-error
+if [ ! -f $BD/build.ninja ]; then
+  cmake -G Ninja -S $SRC -B $BD -DCMAKE_BUILD_TYPE=RelWithDebInfo -DPHOTON_BUILD_TESTING=ON -DCMAKE_CXX_FLAGS=-Wno-error
 fi
-cmake --build /repo/_build -j16
-ctest --test-dir /repo/_build -j8 --timeout 900 "$@"
+cmake --build $BD -j16
+set +e
+ctest --test-dir $BD -j8 --timeout 900 --test-output-size-passed 100000000 --test-output-size-failed 100000000 > $BD/ctest.out 2>&1
+tail -30 $BD/ctest.out
+python3 /verif/bin/suite_compare.py $BD
